@@ -28,6 +28,14 @@ CONFIG = {
         trivial=r"^(0|1|-|0{16}|f{16}|0{16} 0{16}|f{16} f{16})$",
         trusted_base=["Go integer semantics as modelled in Model/Bits.lean"],
     ),
+    "C08": dict(
+        level_text="Kernel-checked Lean theorems (Props/C08.lean): descriptor (un)marshal functions are the C01/C02 functions of the descriptor's layout (inheriting their bit-level specs), exact closed-form bounds for every length 1..64, saturated casts equal clamping to those bounds for every int64/uint64 argument, float signals move exactly the 32-bit pattern; model compared with pkg/descriptor on all 4160 geometries, every length and boundary/random arguments on every run.",
+        level_note="Trusted: Lean kernel; Model/Signal.lean + Model/Bits.lean validated by correspondence; hardware float32<->float64 conversions (exactly representable values only are exercised); harness and driver.",
+        level="proof", exhaustive=True,
+        exhaustive_what="all 4160 fitting geometries x {signed, unsigned, float32 on 32-bit}; every length 1..64 for bounds and saturation",
+        trivial=r"^(0|1|-1|-|0{16}|f{16})$",
+        trusted_base=["Go integer semantics as modelled in Model/Bits.lean, Model/Signal.lean", "float32<->float64 hardware conversion (uninterpreted; only the bit pattern is modelled)"],
+    ),
     "C17": dict(
         level_text="Kernel-checked Lean theorems (Props/C17.lean): the three checks are equivalent to the declarative fit predicates for all arguments, and a passing check confines reads/writes to the first frameLength bytes; the model is compared with the real functions on the complete 1,175,040-case domain on every run.",
         level_note="Trusted: Lean kernel; Model/Bits.lean (checkLE/checkBE/checkValue) validated by the exhaustive correspondence run; harness and driver.",
